@@ -236,6 +236,39 @@ func (p *Peer) Heartbeat() *RxMsg {
 	return p.Request(message.NewHeartbeatRequest(p.NextSeq(), ie.NewRecoveryTimeStamp(p.TS), nil), 5*time.Second)
 }
 
+// HeartbeatRetry is the liveness probe: a single datagram may legitimately be
+// dropped (e.g. it reaches the listening socket while the node has not yet
+// forgotten the connection that just shut down); "not wedged" means that one
+// of a few retransmissions is answered.
+func (p *Peer) HeartbeatRetry() *RxMsg {
+	for i := 0; i < 3; i++ {
+		if rx := p.Request(message.NewHeartbeatRequest(p.NextSeq(), ie.NewRecoveryTimeStamp(p.TS), nil), 2*time.Second); rx != nil {
+			return rx
+		}
+		if !p.r.AgentAlive() {
+			return nil
+		}
+	}
+	return nil
+}
+
+// AssociateRetry retries a few times (lost to a teardown race, or rejected
+// while the datapath is still connecting).
+func (p *Peer) AssociateRetry() *message.AssociationSetupResponse {
+	var last *message.AssociationSetupResponse
+	for i := 0; i < 4; i++ {
+		last = p.Associate()
+		if p.Associated || !p.r.AgentAlive() {
+			return last
+		}
+		p.r.Sim.RunFor(500 * time.Millisecond)
+	}
+	if p.Associated {
+		return last
+	}
+	return nil
+}
+
 func (p *Peer) Release() *RxMsg {
 	m := message.NewAssociationReleaseRequest(p.NextSeq(), ie.NewNodeID(p.NodeID, "", ""))
 	resp := p.Request(m, 5*time.Second)
